@@ -77,6 +77,11 @@ func setField(f reflect.Value, val string) {
 			if err != nil {
 				panic(err)
 			}
+			if val == "010101" {
+				// what the zero time prints as: a pointer to the zero time.Time is a supplied date too (ReadFromSTL
+				// produces it for blank date fields)
+				t = time.Time{}
+			}
 			f.Set(reflect.ValueOf(&t))
 		case *astisub.WebVTTTimestampMap:
 			p := strings.Split(val, ",")
